@@ -14,17 +14,17 @@ from . import common
 PID = "C17"
 RULE = ("requests = every path of <= N segments over {.., ., child dir, child file, nested file, sibling-with-common-prefix, outside dir, "
         "outside files, empty} in three spellings (absolute under root, absolute under the scratch base, cwd-relative) x "
-        "{POST /script f, /directory f, /directory d, /lineage f, GET x 4 spellings} x root setting {SQLLINEAGE_DIRECTORY, draw_lineage_graph(f=)} x cwd; "
+        "{POST /script f, /directory f, /directory d, /lineage f, GET x 4 spellings} x root setting {SQLLINEAGE_DIRECTORY, draw_lineage_graph(f=), requests under the first root and then draw_lineage_graph(f=)} x cwd; "
         "non-trivial = distinct resolved target paths (realpath) requested; every response body is searched for markers of files/dirs outside the applicable root")
 
 
 def shards(tier, tok, base, seed):
     if tier == "quick":
         maxseg, lineage_maxseg, extra, nshard = 3, 2, 150, 4
-        settings = [("env", "root"), ("env", "base"), ("draw", "root"), ("draw", "sub")]
+        settings = [("env", "root"), ("env", "base"), ("draw", "root"), ("draw", "sub"), ("env_then_draw", "root")]
     else:
         maxseg, lineage_maxseg, extra, nshard = 5, 3, 2000, 8
-        settings = [("env", "root"), ("env", "base"), ("draw", "root"), ("draw", "sub")]
+        settings = [("env", "root"), ("env", "base"), ("draw", "root"), ("draw", "sub"), ("env_then_draw", "root"), ("env_then_draw", "base")]
     out = []
     for rs, cwd in settings:
         for s in range(nshard):
